@@ -8,7 +8,7 @@ ENCODED = ['yaml.scan / parse / compose_all / load_all (generator API, dispose i
            'Scanner.need_more_tokens / fetch_more_tokens / stale_possible_simple_keys (token look-ahead)', 'Parser document loop (parse_document_start / parse_document_end)']
 BOUNDS = {'quick': 'streams of 2-3 documents chosen by solver variables among 8 document kinds (empty, 1 character, simple key, flow collection, block scalar, 40 characters, '
                    'closed by "...", closed by "..." then comments) followed by a tail of 3 blocks (9 in the long-stream cells, 17 in the thorough tier) of comments or of further documents - the bound is checked for every document of the tail too -, optionally a malformed last document; '
-                   'text and UTF-8 byte streams; the first two read sizes as solver variables; the four generator API functions; abandonment after the first document',
+                   'text and UTF-8 byte streams; the first two read sizes as solver variables; the four generator API functions; abandonment after the first document; one unbroken token of 5000 / 9000 / 17000 characters (33000 and 70000 in the thorough tier) in five token kinds',
           'thorough': 'the same with 4 documents and three symbolic read sizes'}
 OUTSIDE = 'C input handler; document sizes are concrete (loops whose trip count grows with the input are a weak target): only the document kinds, the schedule and the tail are solver variables'
 ASSUMPTIONS = ['bound checked: when document k is handed to the caller at most end(k) + 2*4096 units have been requested from the stream',
@@ -116,6 +116,50 @@ def incremental(d0: int, d1: int, d2: int, n: int, tail: int, nblocks: int, bad:
     return 'ok'
 
 
+LONG = [5000, 9000, 17000, 33000, 70000]
+
+
+def long_token(kind: int, li: int, api: int, as_bytes: bool) -> str:
+    """one unbroken token of 1-17 blocks (no white space inside, so the reader cannot drop what it has consumed while the
+    token is being scanned) as the first document of a stream that goes on: what is requested from the stream before the
+    document is handed over stays within two blocks of its end, whatever the length"""
+    L = pick(li, LONG)
+    if kind == 0:
+        tok = 'w' * L
+    elif kind == 1:
+        tok = '"' + 'w' * L + '"'
+    elif kind == 2:
+        tok = "'" + 'w' * L + "'"
+    elif kind == 3:
+        tok = '!!binary ' + 'QUJD' * (L // 4)
+    else:
+        tok = '&' + 'a' * L + ' x'
+    first = '--- ' + tok + '\n'
+    t = '--- ' + 'z' * 100 + '\n'
+    reps = (L + 12 * BLOCK) // len(t) + 1
+    text = first + t * reps
+    ends = [len(first)] + [len(first) + (r + 1) * len(t) for r in range(reps)]
+    data = text.encode('utf-8') if as_bytes else text
+    stream = Instrumented(data, [])
+    CountingLoader.disposed = 0
+    seen = 0
+    gen = _api(api, stream)
+    try:
+        for item in gen:
+            if api == 2 and not isinstance(item, yaml.DocumentEndEvent):
+                continue
+            if stream.requested > ends[seen] + 2 * BLOCK:
+                return fail(P, 'EAGER document %d delivered after %d units were requested, it ends at %d' % (seen, stream.requested, ends[seen]), api=api)
+            seen += 1
+    except Exception as e:
+        not_a_finding(e)
+        return fail(P, exc_sig(e), api=api)
+    reach()
+    if seen != reps + 1:
+        return fail(P, 'ORDER %d documents delivered, the stream has %d' % (seen, reps + 1), api=api)
+    return 'ok'
+
+
 def abandon(d0: int, api: int, how: int, as_bytes: bool, k1: int) -> str:
     """abandoning the iteration releases the loader"""
     text = pick(d0, DOCS) + '--- second\n' + '# c\n' * 3000
@@ -166,6 +210,13 @@ def jobs(tier):
                       budget=250 if q else 900,
                       bounds='%s: streams of %d blocks of documents behind 2 documents: every document of the stream is delivered with at most two blocks requested beyond its end' % (
                           ['load_all', 'compose_all', 'parse'][api], 9 if q else 17)))
+    NL = 3 if q else len(LONG)
+    for kd in range(5):
+        js.append(Job('long-token/%s' % ['plain', 'double-quoted', 'single-quoted', 'binary', 'anchor'][kd], long_token,
+                      [lambda kind, li, api, as_bytes, _k=kd: kind == _k and 0 <= li < NL and 0 <= api <= 2],
+                      budget=250 if q else 1500,
+                      bounds='first document one unbroken token of %s characters, followed by 12+ blocks of further documents; '
+                             '3 API functions x text / UTF-8 bytes: the bound holds for every document' % ', '.join(str(x) for x in LONG[:NL])))
     js.append(Job('abandon', abandon, [lambda d0, api, how, as_bytes, k1: 0 <= d0 < ND and 0 <= api <= 2 and 0 <= how <= 2 and (k1 == 1 or k1 == 5000)],
                   budget=250, bounds='%d first documents x 3 API functions x {close, del, break} x text/bytes x 2 first read sizes' % ND))
     return js
